@@ -133,6 +133,9 @@ func TestVerifC15(t *testing.T) {
 			f := &verifC15Filler{}
 			want := f.fill(obj.Elem(), vr.nelem, vr.skip, "")
 			desc := fmt.Sprintf("%s nelem=%d nil=%v", st.Name(), vr.nelem, vr.skip)
+			if cases%97 == 5 {
+				fmt.Printf("REPLAY-SAMPLE %s: %d declared slots\n", desc, len(want))
+			}
 			var got []*value.Value
 			func() {
 				defer func() {
